@@ -298,9 +298,68 @@ pub fn addr_universe() -> ListUniverse {
             }
         }
     }
+    // IPv4 / IPv6 blocks over address classes (unspecified, loopback, broadcast, multicast, private, link-local,
+    // IPv4-mapped, documentation): every ordered pair of classes as source and destination
+    let c4: Vec<[u8; 4]> = vec![[0, 0, 0, 0], [127, 0, 0, 1], [255, 255, 255, 255], [224, 0, 0, 1], [10, 1, 2, 3], [169, 254, 1, 1], [192, 0, 2, 1]];
+    for a in &c4 {
+        for bb in &c4 {
+            let mut h = SIG.to_vec();
+            h.extend_from_slice(&[0x21, 0x11, 0, 12]);
+            h.extend_from_slice(a);
+            h.extend_from_slice(bb);
+            h.extend_from_slice(&[0x30, 0x39, 0x01, 0xbb]);
+            cases.push(h);
+        }
+    }
+    let g = |x: [u16; 8]| -> Vec<u8> { x.iter().flat_map(|v| v.to_be_bytes()).collect() };
+    let c6: Vec<Vec<u8>> = vec![
+        g([0; 8]),
+        g([0, 0, 0, 0, 0, 0, 0, 1]),
+        g([0, 0, 0, 0, 0, 0xffff, 0xc000, 0x0201]),
+        g([0, 0, 0, 0, 0, 0xffff, 0x0a01, 0x0203]),
+        g([0, 0, 0, 0, 0, 0, 0xc000, 0x0201]),
+        g([0xfe80, 0, 0, 0, 0, 0, 0, 2]),
+        g([0xff02, 0, 0, 0, 0, 0, 0, 1]),
+        g([0x2001, 0xdb8, 0, 0, 0, 0, 0, 0x1a]),
+        g([0xffff; 8]),
+        g([0x64, 0xff9b, 0, 0, 0, 0, 0x0102, 0x0304]),
+    ];
+    for a in &c6 {
+        for bb in &c6 {
+            for (vc, afp) in [(0x21u8, 0x21u8), (0x20, 0x22)] {
+                let mut h = SIG.to_vec();
+                h.extend_from_slice(&[vc, afp, 0, 36]);
+                h.extend_from_slice(a);
+                h.extend_from_slice(bb);
+                h.extend_from_slice(&[0xc0, 0x01, 0x00, 0x50]);
+                cases.push(h.clone());
+                h[15] = 43;
+                h.extend_from_slice(&[4, 0, 4, 1, 2, 3, 4]);
+                cases.push(h);
+            }
+        }
+    }
+    // Unix blocks with realistic path shapes: NUL-terminated paths with bytes after the terminator, abstract names, '@' spelling
+    let shapes: Vec<Vec<u8>> = vec![b"/var/run/haproxy.sock".to_vec(), b"/a\0/b".to_vec(), b"\0abstract-7f3a".to_vec(), b"@client-7f3a".to_vec(), b"x\0\0y".to_vec(), vec![b'p'; 108], vec![]];
+    for a in &shapes {
+        for bb in &shapes {
+            let mut p = vec![0u8; 216];
+            p[..a.len()].copy_from_slice(a);
+            p[108..108 + bb.len()].copy_from_slice(bb);
+            for (vc, afp) in [(0x21u8, 0x31u8), (0x20, 0x32)] {
+                let mut h = SIG.to_vec();
+                h.extend_from_slice(&[vc, afp, 0, 216]);
+                h.extend_from_slice(&p);
+                cases.push(h.clone());
+                h[15] = 221;
+                h.extend_from_slice(&[4, 0, 2, 0xaa, 0xbb]);
+                cases.push(h);
+            }
+        }
+    }
     ListUniverse {
         name: "U2-addr".into(),
-        what: "per family: all-distinct block, and single-position blocks (every position x {01,80,FF}), 3 control pairs, with and without a TLV".into(),
+        what: "per family: all-distinct block, and single-position blocks (every position x {01,80,FF}), 3 control pairs, with and without a TLV; Unix blocks with path shapes (NUL-terminated with trailing bytes, abstract, @, full length)".into(),
         cases,
     }
 }
